@@ -62,6 +62,8 @@ def run_unit(name, tier, probe, log_air):
     u.write('__probe' if probe else '')
     ntok = u.erasure_check()
     rlimit = 30 if tier == 'quick' else 60
+    if probe:
+        rlimit = 8
     res = kv.run_verus(u.gen_path, flags=u.verus_flags, rlimit=rlimit, log_air=log_air)
     fails, und = kv.classify(u, res)
     return u, res, fails, und, ntok
@@ -82,7 +84,7 @@ def main():
         print('UNDECIDED property %s is not claimed (see MANIFEST.not_applicable)' % pid)
         return 2
     cfg = props.PROPS[pid]
-    ev_path = os.path.join(VERIF, 'evidence', pid + '.json')
+    ev_path = os.path.join(os.environ.get('KV_EVIDENCE_DIR', os.path.join(VERIF, 'evidence')), pid + '.json')
     os.makedirs(os.path.dirname(ev_path), exist_ok=True)
     if os.path.exists(ev_path):
         os.remove(ev_path)
@@ -124,6 +126,15 @@ def main():
                 info['probe'] = {'functions_probed': want, 'refuted_false': sorted(got & set(want)), 'wall_s': round(pres['wall'], 2)}
     except (ExtractError, kv.Undecided) as e:
         undecided.append('%s: %s' % (type(e).__name__, e))
+
+    extra_res = None
+    if cfg.get('extra') and not undecided:
+        try:
+            extra_res = cfg['extra'](tier)
+            undecided += extra_res.get('undecided', [])
+            failures += extra_res.get('failures', [])
+        except Exception as e:
+            undecided.append('extra verifier failed to run: %r' % (e,))
 
     # --- evidence -------------------------------------------------------------------------
     mine = [f for f in failures if pid in f['props'] and not f['probe']]
@@ -172,6 +183,14 @@ def main():
         if 'probe' in info:
             probes.append(dict(unit=info['unit'], **info['probe']))
         trusted += u.trusted_notes
+    other_backends = []
+    if extra_res:
+        n_obl += extra_res.get('obligations', 0)
+        cmds += extra_res.get('cmds', [])
+        other_backends = extra_res.get('backends', [])
+        solver_s += extra_res.get('solver_s', 0.0)
+        for x in extra_res.get('functions', []):
+            fns.append(x)
     trusted += cfg.get('trusted', [])
     trusted = sorted(set(trusted))
     n_failed = len(mine)
@@ -226,6 +245,7 @@ def main():
             'functions_under_contract': fns,
             'backend': 'Verus 0.2026.09.13 (Z3 4.12.5 bundled) on functions extracted verbatim from /repo/src; '
                        'obligations counted as assert statements of the initial-form AIR queries of those functions',
+            'other_backends': other_backends,
             'solver_time_s': round(solver_s, 3),
             'samples': samples,
             'extraction': {'source_tokens_checked_by_erasure': sum(i['ntok'] for i in unit_infos),
